@@ -238,3 +238,302 @@ def droppers_inventory(facts, rep, rid, fn_suffixes, audited, what):
                 rep.violation(rid, key, "new dropping adapter `.%s` in %s: %s that the library contains would be left out of the answer; if it is intended, audit it with a reason" % (
                     sig[:80], fb.last2(f.def_), what), loc(f, x))
     return n
+
+
+def controlling_tests(c, node):
+    """Tests that decide whether `node` (typically a `return`) is reached, nearest first, in a form that does not depend on the idiom:
+    -> list of (expr tested, polarity) where polarity is
+         "true"/"false"  for an `if` condition (node in the then / else branch),
+         "pat:<Variant>" for a match arm / `if let` / let-else on that expression (`pat:None`, `pat:Err`, `pat:_`, `pat:!Some` for a let-else)."""
+    out = []
+    child = node
+    for p in c.parents(node):
+        k = p.get("k")
+        if k == "if":
+            cond = p["c"]
+            if cond.get("k") == "letx":
+                if child is p.get("t"):
+                    out.append((cond.get("init"), "pat:" + "|".join(fb.last_seg(v) for v in fb.pat_variants(cond["pat"]))))
+                elif child is p.get("e"):
+                    out.append((cond.get("init"), "pat:!" + "|".join(fb.last_seg(v) for v in fb.pat_variants(cond["pat"]))))
+            elif child is p.get("t"):
+                out.append((cond, "true"))
+            elif child is p.get("e"):
+                out.append((cond, "false"))
+        elif k == "match":
+            for arm in p.get("arms", []):
+                if arm.get("body") is child:
+                    out.append((p.get("e"), "pat:" + "|".join(fb.last_seg(v) for v in fb.pat_variants(arm["pat"]))))
+        elif k == "let" and p.get("els") is not None and child is p.get("els"):
+            out.append((p.get("init"), "pat:!" + "|".join(fb.last_seg(v) for v in fb.pat_variants(p["pat"]))))
+        elif k == "closure":
+            break
+        child = p
+    return out
+
+
+def absent_test(c, test, callee_suffix):
+    """Does (expr, polarity) say "the Option returned by <callee_suffix>(..) is None"?  `if f().is_none()`, `match f() { None => .. }`,
+    `let Some(x) = f() else { .. }`, `if let Some(..) = f() {} else { .. }`."""
+    e, pol = test
+    if e is None:
+        return False
+    ment = c.mentions(e)
+    if not any(a[0] == "call" and a[1] and a[1].endswith(callee_suffix) for a in ment):
+        return False
+    if pol == "true":
+        return any(x.get("k") == "mcall" and x["name"] == "is_none" for x in fb.walk(e)) and not any(x.get("k") == "unary" and x.get("op") == "!" for x in fb.walk(e))
+    if pol == "false":
+        return any(x.get("k") == "mcall" and x["name"] == "is_some" for x in fb.walk(e)) and not any(x.get("k") == "unary" and x.get("op") == "!" for x in fb.walk(e))
+    return pol in ("pat:None", "pat:!Some")
+
+
+def _diverges(b):
+    if b is None:
+        return False
+    k = b.get("k")
+    if k in ("ret", "break", "continue"):
+        return True
+    if k == "block":
+        seq = list(b.get("stmts", []))
+        if b.get("e") is not None:
+            seq.append(b["e"])
+        return bool(seq) and _diverges(seq[-1])
+    if k in ("call", "mcall") and b.get("ty") == "!":
+        return True
+    return False
+
+
+def _atoms(cond, pol):
+    """(atomic condition, truth value) pairs implied by `cond` having truth value `pol`."""
+    if cond is None:
+        return []
+    k = cond.get("k")
+    if k == "unary" and cond.get("op") == "!":
+        return _atoms(cond["e"], not pol)
+    if k == "binary" and cond.get("op") == "&&" and pol:
+        return _atoms(cond["l"], True) + _atoms(cond["r"], True)
+    if k == "binary" and cond.get("op") == "||" and not pol:
+        return _atoms(cond["l"], False) + _atoms(cond["r"], False)
+    if k == "block" and not cond.get("stmts") and cond.get("e") is not None:
+        return _atoms(cond["e"], pol)
+    return [(cond, pol)]
+
+
+def facts_at(c, node):
+    """Atomic conditions known to hold / not to hold when `node` is evaluated, whatever idiom establishes them:
+    then-branch of `if A`, else-branch of `if A`, right operand of `A && ..` / `A || ..`, and every statement after an early exit
+    `if A { return / continue / break }` in an enclosing block.  -> [(expr, bool)]; locals bound to a condition (`let ok = A;`) are followed."""
+    out = []
+    child = node
+    for p in c.parents(node):
+        k = p.get("k")
+        if k == "if" and p["c"].get("k") != "letx":
+            if child is p.get("t"):
+                out += _atoms(p["c"], True)
+            elif child is p.get("e"):
+                out += _atoms(p["c"], False)
+        elif k == "binary" and p.get("op") == "&&" and child is p.get("r"):
+            out += _atoms(p["l"], True)
+        elif k == "binary" and p.get("op") == "||" and child is p.get("r"):
+            out += _atoms(p["l"], False)
+        elif k == "block":
+            seq = list(p.get("stmts", [])) + ([p["e"]] if p.get("e") is not None else [])
+            for s in seq:
+                if s is child:
+                    break
+                if s.get("k") == "if" and s["c"].get("k") != "letx" and _diverges(s.get("t")) and (s.get("e") is None or not _diverges(s.get("e"))):
+                    out += _atoms(s["c"], False)
+                elif s.get("k") == "if" and s["c"].get("k") != "letx" and s.get("e") is not None and _diverges(s.get("e")) and not _diverges(s.get("t")):
+                    out += _atoms(s["c"], True)
+        elif k == "closure":
+            break
+        child = p
+    # a condition held in a local: `let is_ref = self.is_ref(); if is_ref { .. }`
+    res = []
+    for e, pol in out:
+        if e.get("k") == "path" and e.get("res") == "local":
+            b = c.binds.get(e["id"])
+            if b and b[0] == "expr" and b[1] is not None:
+                res += _atoms(b[1], pol)
+                continue
+        res.append((e, pol))
+    return res
+
+
+def known_call(c, node, callee_suffix):
+    """True / False if a call to `callee_suffix` is known to have returned that at `node` (see facts_at), else None."""
+    for e, pol in facts_at(c, node):
+        if e.get("k") in ("call", "mcall") and (fb.callee(e) or "").endswith(callee_suffix):
+            return pol
+    return None
+
+
+_LOSSY_ADAPTERS = {"filter", "filter_map", "skip", "take", "step_by", "rev", "dedup", "dedup_by", "dedup_by_key", "unique", "unique_by", "take_while", "skip_while",
+                   "nth", "last", "find", "find_map", "position", "sorted", "sorted_by", "sorted_by_key", "truncate", "retain", "drain", "split_off"}
+
+
+def _applies(arg, callee_suffix):
+    """Does the mapping argument (closure or fn path) apply `callee_suffix` to its item?"""
+    if arg is None:
+        return False
+    if arg.get("k") == "path":
+        return fb.norm(arg.get("def") or "").endswith(callee_suffix)
+    return any(y.get("k") in ("call", "mcall") and (fb.callee(y) or "").endswith(callee_suffix) for y in fb.walk(arg))
+
+
+def maps_every_child(c, scope, callee_suffix):
+    """Sites under `scope` where *every* child of a tree node is passed through `callee_suffix`, in either idiom:
+         x.map_children(|child| child.f(..))                      (Tree::map_children is itself checked to be a plain map)
+         x.children.iter().map(|child| child.f(..)).collect()      (no filter / skip / take / rev ... between `.children` and `.map`)"""
+    out = []
+    for x in fb.walk(scope):
+        if x.get("k") != "mcall" or not x.get("args"):
+            continue
+        if x["name"] == "map_children" and _applies(x["args"][0], callee_suffix):
+            out.append(x)
+        elif x["name"] in ("map", "flat_map") and _applies(x["args"][0], callee_suffix):
+            names, r = [], x["recv"]
+            while r is not None and r.get("k") == "mcall":
+                names.append(r["name"])
+                r = r["recv"]
+            while r is not None and r.get("k") in ("addrof", "unary"):
+                r = r["e"]
+            if r is not None and r.get("k") == "field" and r.get("name") == "children" and not (set(names) & _LOSSY_ADAPTERS) and x["name"] == "map":
+                out.append(x)
+    return out
+
+
+def through_lets(c, e, depth=0):
+    """The expression a value stands for: a use of a local that was bound by a plain `let name = init;` is replaced by `init`
+    (repeatedly), blocks without statements and parentheses are looked through."""
+    while e is not None and depth < 8:
+        depth += 1
+        k = e.get("k")
+        if k == "block" and not e.get("stmts") and e.get("e") is not None:
+            e = e["e"]
+            continue
+        if k == "path" and e.get("res") == "local":
+            b = c.binds.get(e["id"])
+            if b and b[0] == "expr" and len(b) > 2 and isinstance(b[2], dict) and b[2].get("k") == "p_bind" and "sub" not in b[2]:
+                e = b[1]
+                continue
+        break
+    return e
+
+
+_RESULT_FORWARDERS = {"try_for_each", "try_fold", "map", "and_then", "map_err", "or_else", "collect", "try_collect", "sum", "inspect_err", "context", "with_context"}
+
+
+def result_propagated(c, f, call):
+    """Does the Result produced by `call` reach the caller of `f`?  `call(..)?`, `return call(..)`, tail expression of the fn, or the value of
+    a closure handed to `try_for_each` / `try_fold` / `map(..).collect::<Result<..>>()` whose own result is propagated the same way.
+    A statement position (`call(..);`, `let _ = call(..);`) drops it."""
+    node = call
+    for p in c.parents(call):
+        k = p.get("k")
+        if k == "match" and p.get("src") == "TryDesugar":
+            return True
+        if k in ("ret", "iret"):
+            return True
+        if k == "block":
+            if p.get("e") is node:
+                node = p
+                continue
+            return False                      # a statement inside a block: the value is dropped (or bound; not followed)
+        if k == "closure":
+            if p.get("body") is node:
+                node = p
+                continue
+            return False
+        if k == "mcall":
+            if p.get("recv") is node and p["name"] in _RESULT_FORWARDERS:
+                node = p
+                continue
+            if any(a is node for a in p.get("args", [])) and node.get("k") == "closure" and p["name"] in _RESULT_FORWARDERS:
+                node = p
+                continue
+            return False
+        if k == "call":
+            # Try::branch(x) / From::from(x) wrappers of the `?` desugaring, Ok(..) is NOT forwarding (it would swallow the error)
+            cal = fb.callee(p) or ""
+            if cal.endswith(("Try::branch", "FromResidual::from_residual", "IntoIterator::into_iter")):
+                node = p
+                continue
+            return False
+        if k in ("if", "match"):
+            node = p
+            continue
+        if k in ("let", "letx", "assign"):
+            return False
+        node = p
+    # reached the fn body: the value is the fn's result iff the body (or its tail) is `node`
+    return node is f.body
+
+
+def loop_as_chain(c, f, src):
+    """If the sequence produced by `src` is consumed by a `for` loop that pushes one value per element into a collection, describe the loop
+    as the iterator chain it is equivalent to:  for x in S.a().b() { out.push(g(x)) } ; out.join(..)   ==   S.a().b().map(g).collect().join(..)
+    -> (names, mapped) where names = ['a', 'b', 'map', 'collect', 'join', ..] and mapped = [g(x) expression nodes]; a push under a condition
+    or a loop with `continue` / `break` contributes the name 'filter' (elements can be skipped).  None if `src` does not feed a for loop."""
+    loop = None
+    inside = src
+    for p in c.parents(src):
+        if p.get("k") == "match" and p.get("src") == "ForLoopDesugar" and any(y is inside for y in fb.walk(p.get("e") or {})):
+            loop = p
+            break
+    if loop is None:
+        return None
+    names = [m["name"] for m in chain_up(c, src) if any(y is m for y in fb.walk(loop["e"]))]
+    names = [n for n in names if n not in ("into_iter", "iter", "iter_mut")]
+    body = None
+    for x in fb.walk(loop):
+        if x.get("k") == "match" and x is not loop:
+            for arm in x.get("arms", []):
+                if any(fb.last_seg(v) == "Some" for v in fb.pat_variants(arm["pat"])):
+                    body = arm["body"]
+            if body is not None:
+                break
+    if body is None:
+        return None
+    pushes = [x for x in fb.walk(body, into_closures=False) if x.get("k") == "mcall" and x["name"] in ("push", "push_str", "push_back", "insert", "extend") and
+              _outer_local(x.get("recv"), body) is not None]
+    if not pushes:
+        return None
+    skipping = any(x.get("k") in ("continue", "break", "ret") for x in fb.walk(body, into_closures=False))
+    mapped, targets = [], set()
+    for pu in pushes:
+        cond = False
+        child = pu
+        for p in c.parents(pu):
+            if p is body:
+                break
+            if p.get("k") in ("if", "match") and child is not p.get("c") and child is not p.get("e", None) or (p.get("k") == "if"):
+                cond = True
+            child = p
+        if cond or skipping:
+            names.append("filter")
+        mapped += list(pu.get("args", []))
+        targets.add(_outer_local(pu["recv"], body))
+    names += ["map", "collect"]
+    for lid in targets:
+        for use in fb.local_uses(f.body, lid):
+            if not any(y is use for y in fb.walk(loop)):
+                names += [m["name"] for m in value_chain(c, use)]
+    return names, mapped
+
+
+def _outer_local(e, scope):
+    """id of the local `e` is rooted in, if that local is not bound inside `scope`."""
+    while e is not None and e.get("k") in ("field", "addrof", "unary", "index"):
+        e = e.get("e")
+    if e is None or e.get("k") != "path" or e.get("res") != "local":
+        return None
+    inner = set()
+    for x in fb.walk(scope, with_pats=True):
+        if x.get("k") == "p_bind":
+            inner.add(x.get("id"))
+        if x.get("k") in ("let", "letx"):
+            for _n, lid in fb.pat_bindings(x.get("pat")):
+                inner.add(lid)
+    return None if e["id"] in inner else e["id"]
